@@ -22,7 +22,7 @@ ENGINE = "direct"
 TECHNIQUE = "lock-step shadow model over random operation histories; serialise/parse round trip"
 BUDGET = {"quick": (6_000, 16), "thorough": (120_000, 200)}
 WORKERS = {"quick": 2, "thorough": 16}
-REQUIRED = ["op.result", "op.fields", "h1_roundtrip", "histories.with_near_equal_distinct_names"]
+REQUIRED = ["op.result", "op.fields", "h1_roundtrip", "histories.with_near_equal_distinct_names", "eq.layout_of_repeated_name"]
 RULE = (
     "case = a history of 1-40 operations ([] get/set/del, get, in, add, insert(i), get_all/set_all, pop, popitem, setdefault, "
     "update (pairs / other headers / kwargs), keys/values/items (multi and not), iteration, len, ==, copy, clear, construction "
@@ -38,7 +38,9 @@ RULE = (
 )
 ASSUMPTIONS = [
     "names are case-insensitive in the ASCII range only (HTTP field names are tokens)",
-    "== between collections whose fields differ only in the case of names is unspecified (not judged)",
+    "== is decided by the ordered field list: collections that differ in any value, in the order or in how the values of a repeated name are "
+    "laid out (split over fields vs folded into one, interleaving) are unequal; only a difference confined to the letter case of names is "
+    "left unjudged (the statement calls names case-insensitive but also says spelling is preserved; the code compares spelling)",
     "values()/items() without multi report the folded value m[name] per distinct name (Mapping contract)",
     "valid field = RFC 9110 token name and field-content value without leading/trailing whitespace",
 ]
@@ -79,7 +81,7 @@ OPS = [
     ("getitem", 6), ("get", 3), ("contains", 3), ("setitem", 8), ("delitem", 6), ("add", 7), ("insert", 6),
     ("get_all", 4), ("set_all", 8), ("pop", 4), ("popitem", 2), ("setdefault", 4), ("update_pairs", 3),
     ("update_from", 2), ("update_kwargs", 2), ("keys", 2), ("values", 2), ("items", 3), ("iter", 3), ("len", 3),
-    ("eq", 4), ("copy", 3), ("clear", 1), ("new_kwargs", 1), ("roundtrip", 2),
+    ("eq", 7), ("copy", 3), ("clear", 1), ("new_kwargs", 1), ("roundtrip", 2),
 ]
 OP_NAMES = [o for o, _ in OPS]
 OP_W = [w for _, w in OPS]
@@ -117,6 +119,41 @@ def gen_valid_fields(r):
         val = val.strip(b" \t")
         out.append((name, val))
     return out
+
+
+def layout_variant(r, m):
+    """A collection with other fields than m but the same folded per-name view (m[name] for each name, in order):
+    a repeated name folded into one field, a value containing ', ' split into two fields, a later occurrence of a
+    repeated name moved next to / away from the first one. None if m offers none of these."""
+    f = list(m.f)
+    groups = {}
+    for i, (n, _) in enumerate(f):
+        groups.setdefault(ref.fold(n), []).append(i)
+    rep = [ix for ix in groups.values() if len(ix) > 1]
+    options = []
+    if rep:
+        options += ["fold", "move"]
+    if any(b", " in v for _, v in f):
+        options.append("split")
+    if not options:
+        return None
+    how = r.choice(options)
+    if how == "fold":
+        ix = r.choice(rep)
+        g = [(f[ix[0]][0], b", ".join(f[i][1] for i in ix)) if i == ix[0] else f[i] for i in range(len(f)) if i == ix[0] or i not in ix]
+    elif how == "split":
+        i = r.choice([i for i, (_, v) in enumerate(f) if b", " in v])
+        a, b = f[i][1].split(b", ", 1)
+        g = f[:i] + [(f[i][0], a), (f[i][0], b)] + f[i + 1 :]
+    else:
+        ix = r.choice(rep)
+        j = r.choice(ix[1:])  # a later occurrence: move it directly behind the first one, or to the end
+        item = f[j]
+        g = f[:j] + f[j + 1 :]
+        pos = ix[0] + 1 if r.random() < 0.5 and j != ix[0] + 1 else len(g)
+        g.insert(pos, item)
+    out = ref.RefHeaders(g)
+    return out if out.f != m.f else None
 
 
 def norm(x):
@@ -263,7 +300,10 @@ def one_history(ctx, r):
         elif op == "len":
             res_r, res_m = call(real.__len__), call(model.length)
         elif op == "eq":
-            how = r.choice(["pool", "copy", "changed", "case", "foreign"])
+            how = r.choice(["pool", "copy", "changed", "case", "foreign", "layout", "layout", "layout"])
+            lay = layout_variant(r, model) if how == "layout" else None
+            if how == "layout" and lay is None:
+                how = "changed"
             rec = (op, slot, how)
             if how == "pool":
                 o = r.randrange(len(pool))
@@ -274,6 +314,10 @@ def one_history(ctx, r):
                 o_m = model.copy()
                 o_m.add("b", "zz") if r.random() < 0.5 or not o_m.f else o_m.f.pop(r.randrange(len(o_m.f)))
                 o_r = Headers(o_m.fields())
+            elif how == "layout":
+                o_m = lay
+                o_r = Headers(o_m.fields())
+                ctx.count("eq.layout_of_repeated_name")
             elif how == "case":
                 o_m = ref.RefHeaders([(n.swapcase(), v_) for n, v_ in model.f])
                 o_r = Headers(o_m.fields())
